@@ -61,7 +61,7 @@ ALIASES = {
 
 @st.composite
 def sources(draw, geff=False):
-    n = draw(st.integers(1, 9))
+    n = draw(st.integers(1, 9)) if draw(st.integers(0, 5)) else draw(st.integers(10, 24))
     nsp = draw(st.sampled_from([2, 2, 3]))
     idkind = draw(st.sampled_from(["contig", "noncontig", "zero", "str", "float"])) if not geff else \
         draw(st.sampled_from(["contig", "noncontig", "zero"]))
@@ -70,7 +70,12 @@ def sources(draw, geff=False):
     elif idkind == "zero":
         ids = list(range(0, n))
     elif idkind == "noncontig":
-        ids = sorted(draw(st.lists(st.integers(1, 500), min_size=n, max_size=n, unique=True)))
+        # dense or sparse ranges (keys built from ids and the number of ids collide in dense
+        # ones), listed in increasing order or in no order relative to time
+        top = draw(st.sampled_from([2 * n + 2, 4 * n, 60 + n, 500, 500, 10**6]))
+        ids = draw(st.lists(st.integers(1, top), min_size=n, max_size=n, unique=True))
+        if draw(st.booleans()):
+            ids = sorted(ids)
     elif idkind == "float":
         ids = [float(i) + 0.5 * draw(st.integers(0, 1)) for i in range(1, n + 1)]
     else:
